@@ -347,6 +347,28 @@ def r5_edits(rep, src, tier='quick'):
                 rep.ok('C11.R5', fn.site, 'replace(missing) on [%s]' % lay, 'ValueError, view unchanged', nontrivial=False)
             else:
                 rep.fail('C11.R5', fn.site, 'replace(missing) on [%s]' % lay, 'raises %s%s' % (x.exc, '' if heap.snapshot() == before else ' after modifying the view'), where=fn.where)
+        # append of a text the value factory refuses (two items, a separator inside): ValueError, and the view is what it was -- no
+        # separator left behind, not marked as changed -- on a fresh view and on one that has been edited before
+        for edited in (False, True):
+            heap, view, lst, nodes, vals = build_view(src, layout, space_sep)
+            heap.hooks['factory'] = lambda it_, a_, k_: (_ for _ in ()).throw(H.Raised('ValueError', it_.h.version, 0))
+            it = H.Interp(heap)
+            fn = heap.module.method(CLS, 'append')
+            heap.objs[view.name]['_changed'] = edited
+            heap.mark()
+            before = heap.snapshot()
+            label = 'append(<a text that is not one value>) on [%s]%s' % (lay, ' after an earlier edit' if edited else '')
+            n += 1
+            try:
+                it.call(H.Closure(fn.node, {}, view, fn.cls), [H.Key('bad', 'a, b')])
+                rep.fail('C11.R5', fn.site, label, 'a text the value factory refuses is appended', where=fn.where)
+            except H.Raised as x:
+                if x.exc == 'ValueError' and heap.snapshot() == before:
+                    rep.ok('C11.R5', fn.site, label, 'ValueError, view unchanged', nontrivial=False)
+                else:
+                    got_, kinds_, _p = read_values(heap, lst)
+                    rep.fail('C11.R5', fn.site, label, 'raises %s%s' % (x.exc, '' if heap.snapshot() == before else ' after modifying the view (tokens now %s, changed flag %s): closing the view '
+                                                                      'writes a field back that nobody edited' % (kinds_, heap.objs[view.name]['_changed'])), where=fn.where)
         # append
         heap, view, lst, nodes, vals = build_view(src, layout, space_sep)
         it = H.Interp(heap)
